@@ -13,7 +13,7 @@ if r.returncode != 0:
     r = subprocess.run(["patch", "-p1", "-i", patch], cwd=repo)
     if r.returncode != 0:
         print("PATCH DID NOT APPLY"); sys.exit(3)
-env = dict(os.environ, VERIF_REPO=repo, VERIF_SCRATCH=base + "/scratch")
+env = dict(os.environ, VERIF_REPO=repo, VERIF_SCRATCH=base + "/scratch", VERIF_EVIDENCE_DIR=base + "/evidence", VERIF_REPLAY_DIR=base + "/replays")
 here = os.path.dirname(os.path.dirname(os.path.abspath(__file__)))
 p = subprocess.run([os.path.join(here, "check"), prop] + extra, env=env, cwd=here)
 print(f"SEEDTEST prop={prop} patch={patch} exit={p.returncode}")
